@@ -543,7 +543,7 @@ func C20Collect(cfg *lib.Cfg, seed int64, n int, emit func(target string, data [
 
 func runC20(r *lib.Run) {
 	r.Rule = "seed corpus = valid JSON documents, (path, TypedValue) pairs, SetRequests, Notifications and path strings produced from generated trees; each seed is fed as is and after structure-aware mutations (wrong JSON kind at one node, list element not an object, renamed/empty member names, nil or empty path elements, missing/extra/hostile keys, nil oneofs, malformed JSON payloads, repeated updates) and raw byte flips, to every entry point of the statement; oracle: the call returns (a recovered panic is the violation, signature = entry point + innermost ygot frame + normalised panic text); non-trivial = mutated input; distinct by target+input bytes"
-	n := r.N(150, 3000)
+	n := r.N(150, 1000)
 	targets := FuzzTargets()
 	for _, cfg := range cfgsFor(r, quick3) {
 		for i := 0; i < n; i++ {
